@@ -410,11 +410,32 @@ def m_slice_iter(c):
 def m_vec_drain(c):
     s = as_seq(c.st, c.args[0])
     r = c.args[1]
+    n = len(list(s.items(c.st)))
+    lo, hi = 0, n
     if not (isinstance(r, Struct) and adt_name(r) == 'RangeFull'):
-        raise Unsupported('Vec::drain with a bounded range')
+        # RangeTo / RangeFrom / Range with bounds that simplify to constants (the vector has a concrete shape)
+        def bound(v):
+            v = z3.simplify(v.v)
+            if not z3.is_bv_value(v):
+                raise Unsupported('Vec::drain with a symbolic bound')
+            return v.as_long()
+        nm = adt_name(r)
+        flds = [r.fields[k] for k in sorted(r.fields, key=str)]
+        if nm == 'RangeTo':
+            hi = bound(flds[0])
+        elif nm == 'RangeFrom':
+            lo = bound(flds[0])
+        elif nm == 'Range':
+            lo, hi = bound(flds[0]), bound(flds[1])
+        else:
+            raise Unsupported('Vec::drain with ' + str(nm))
+        if lo > hi or hi > n:
+            from .exec import Panic
+            raise Panic('drain range out of bounds')
     items = list(s.items(c.st))
-    s.elems.clear()
-    return IterObj(items, 0, 'list')
+    taken = items[lo:hi]
+    del s.elems[lo:hi]
+    return IterObj(taken, 0, 'list')
 
 
 @model('HashMap::iter', 'HashMap::iter_mut', 'BTreeMap::iter', 'BTreeMap::iter_mut', 'HashSet::iter', 'BTreeSet::iter')
